@@ -169,7 +169,14 @@ class Prog:
                 t = (tag + "." if tag else "") + nm if nm else tag
                 if nm in ("buf", "placements") and tag:
                     t = tag if nm == "buf" else t
-                self.ev(s.get("init"), t, tail)
+                vb = isinstance(s.get("init"), dict) and L.strip_try(s["init"]).get("k") == "Block"
+                if vb:
+                    self._value_block = getattr(self, "_value_block", 0) + 1
+                try:
+                    self.ev(s.get("init"), t, tail)
+                finally:
+                    if vb:
+                        self._value_block -= 1
             elif s.get("k") == "Expr":
                 # `r.read_exact(&mut scratch)?; let x = decode(&scratch);`: the bytes are destined for x
                 t = tag
@@ -179,8 +186,18 @@ class Prog:
                     if tgt.get("k") == "Path" and tgt.get("res") == "local" and not (tgt.get("name") or "").startswith("unmapped"):
                         users = [s2 for s2 in stmts[si + 1:] if s2.get("k") == "Let" and s2["pat"].get("k") == "Bind" and any(x.get("k") == "Path" and x.get("id") == tgt.get("id") for x in tir.walk(s2.get("init") or {}))]
                         tails_use = n2.get("tail") is not None and any(x.get("k") == "Path" and x.get("id") == tgt.get("id") for x in tir.walk(n2["tail"]))
-                        if len(users) == 1 and not tails_use:
-                            t = (tag + "." if tag else "") + users[0]["pat"]["name"]
+                        if getattr(self, "_value_block", 0) > 0:
+                            # inside `let x = { let mut buf = ..; r.read_exact(&mut buf)?; .. }`: the bytes are destined for x
+                            if len(users) == 1 and not tails_use:
+                                t = (tag + "." if tag else "") + users[0]["pat"]["name"]
+                        else:
+                            # lets that only compute an index into the buffer (`let first_null: usize = buf.iter().position(..)`) are not its consumers
+                            consumers = [u for u in users if (u["pat"].get("ty") or "") != "usize"]
+                            if len(consumers) == 1 and not tails_use:
+                                t = (tag + "." if tag else "") + consumers[0]["pat"]["name"]
+                            elif not users:
+                                # `let mut bitfield = [0; 4]; r.read_exact(&mut bitfield)?;`: the named buffer is the value itself
+                                t = (tag + "." if tag else "") + (tgt.get("name") or "")
                 self.ev(s["e"], t, tail)
         if n2.get("tail"):
             self.ev(n2["tail"], tag, tail)
